@@ -76,7 +76,7 @@ class Job:
 
     def __init__(self, prop, name, src, defs=None, link=(), models=(), opt='inline', unwind=2, unwindset=None,
                  solver='minisat', timeout=300, shape='K', extra=(), bounds='', nochk=False, objbits=None,
-                 depth=None, stubs=None, skip_ctors=(), noop_stubs=(), rtti=False, noop_containing=()):
+                 depth=None, stubs=None, skip_ctors=(), noop_stubs=(), rtti=False, noop_containing=(), devirt_exclude=()):
         self.prop, self.name, self.src = prop, name, src
         self.defs = dict(defs or {})
         self.link = list(link)
@@ -91,6 +91,8 @@ class Job:
         self.stubs = list(DEFAULT_STUBS if stubs is None else stubs)
         self.stubbed = []
         self.skip_ctors = list(skip_ctors)
+        # virtual-call candidates dropped by name; checked, not assumed (an excluded real target fails the slot check)
+        self.devirt_exclude = list(devirt_exclude)
         # functions of the code under test replaced by an empty body in the SYMBOLIC build only (stated per harness as outside
         # the claim; the harness must make their native effects unobservable)
         self.noop_stubs = list(noop_stubs)
@@ -165,6 +167,8 @@ class Job:
         sk = []
         for c in self.skip_ctors:
             sk += ['--skip-ctor', c]
+        for c in self.devirt_exclude:
+            sk += ['--devirt-exclude', c]
         rc, out, err, _ = run([os.path.join(VERIF, 'tool', 'll2c'), final, '-o', hc] + sk)
         if rc != 0:
             raise PipelineError('ll2c failed on %s: %s' % (self.name, err[-3000:]))
@@ -198,8 +202,16 @@ class Job:
             return
         cmd = ['cbmc', '-I', os.path.join(VERIF, 'vp'), '-I', self.dir, '-I', os.path.join(VERIF, 'models'),
                os.path.join(self.dir, 'h.c')] + self.model_files() + ['--function', 'vp_entry', '--drop-unused-functions', '--show-loops']
-        rc, out, err, _ = run(cmd, cwd=self.dir, timeout=120)
-        loops = re.findall(r'Loop (\S+):\n\s+file (\S+) line (\d+) function (\S+)', out)
+        if not os.path.exists(os.path.join(self.dir, 'vp_kf.h')):
+            self.write_kf({})
+        loops = []
+        for attempt in range(3):
+            rc, out, err, _ = run(cmd, cwd=self.dir, timeout=300)
+            loops = re.findall(r'Loop (\S+):\n\s+file (\S+) line (\d+) function (\S+)', out)
+            if rc == 0:
+                break
+        else:
+            raise PipelineError('cbmc --show-loops failed for %s (rc=%s): %s' % (self.name, rc, (err or out)[-800:]))
         for pat, n in pats.items():
             sub, _, line = pat.partition('@')
             hit = False
